@@ -517,6 +517,12 @@ func (e *Engine) vcall(fn *ssa.Function, s *St, in *ssa.Call, ip int, short stri
 				e.replayHolds[id]++
 			} else {
 				e.replayFails[id]++
+				if kind == "known" {
+					if e.replayKnown == nil {
+						e.replayKnown = map[string]bool{}
+					}
+					e.replayKnown[id] = true
+				}
 				e.rlog(fmt.Sprintf("  assertion %s FAILS on the real VM", id))
 			}
 			return set(UnitV{}) // like the symbolic side: an assertion does not constrain what follows
